@@ -362,8 +362,22 @@ class C13(PropertyCheck):
         res.notes.append(f"exhaustive: every placement (ordered, any distance) of every library gate incl. TOFFOLI/FREDKIN on "
                          f"1-5 qubits x 4 devices ({len(cases)} cases); regenerated device tables compared with the live "
                          f"processor objects; then seeded random circuits and a malformed stream")
+        if ctx.thorough:
+            # every ordered pair of placed resolvable gates on 3 qubits, on every device
+            singles = []
+            for name in RESOLVABLE:
+                nc, nt = decomp.SHAPE[name]
+                for qs in itertools.permutations(range(3), nc + nt):
+                    singles.append((name, qs))
+            cases = []
+            for dev in DEVS:
+                for (n1, q1) in singles:
+                    for (n2, q2) in singles:
+                        cases.append((dev, 3, [placed(n1, q1, 0), placed(n2, q2, 1)]))
+            self._run_cases(ctx, res, cases, "pair")
+            res.notes.append(f"thorough: every ordered pair of placed resolvable gates on 3 qubits x 4 devices ({len(cases)} cases)")
         # random circuits
-        n_rand = 6000 if ctx.thorough else 700
+        n_rand = 20000 if ctx.thorough else 700
         cases = []
         for _ in range(n_rand):
             dev = rng.choice(DEVS)
